@@ -31,7 +31,7 @@ static void run_case(std::ostream& os, uint64_t s0, long long id, const std::str
                      const Emb& emb, int npts, const std::string& cfg, bool reunion, long long& nexec) {
   std::string what = "\"case\":{\"subj\":" + jpaths(S) + ",\"clip\":" + jpaths(C) + ",\"emb\":" + jnum(emb.id) + "}";
   guarded(os, what, 120, [&](std::ostream& o) { run_case_body(o, s0, id, fam, S, C, emb, npts, cfg, reunion, nexec); });
-  nexec += (cfg == "lite" ? 16 : 64) * (cfg == "notree" ? 1 : 2);   // executions happen in the child; count nominally
+  nexec += ((cfg == "lite" || cfg == "batchlite") ? 16 : 64) * (cfg == "notree" ? 1 : 2);   // executions happen in the child; count nominally
 }
 static void run_case_body(std::ostream& os, uint64_t s0, long long id, const std::string& fam, const Paths64& S, const Paths64& C,
                      const Emb& emb, int npts, const std::string& cfg, bool reunion, long long& nexec) {
@@ -45,8 +45,8 @@ static void run_case_body(std::ostream& os, uint64_t s0, long long id, const std
   OutReg reg; reg.emb = &emb; reg.pts = &pts; reg.ps = ps; reg.os = &os;
   std::set<int> reunioned;
   std::vector<int> cts = {1, 2, 3, 4}, frs = {0, 1, 2, 3}, pcs = {0, 1}, rss = {0, 1};
-  if (cfg == "lite") { pcs = {0}; rss = {0}; }
-  bool first = true; const bool batch = cfg == "batch"; std::vector<std::string> xs;
+  if (cfg == "lite" || cfg == "batchlite") { pcs = {0}; rss = {0}; }
+  bool first = true; const bool batch = cfg == "batch" || cfg == "batchlite"; std::vector<std::string> xs;
   PolyTree64 tree;   // ONE tree object reused for every tree execution of the case (Execute must clear it itself)
   auto exec_ev = [&](int ct, int fr, int pc, int rs, int tree, bool ok, int k) {
     if (batch) xs.push_back(jints({ct, fr, pc, rs, tree, ok, k}));
@@ -117,6 +117,15 @@ static int cmd_bool(const Args& a) {
         for (int k = 0; k < kids; ++k) if (r.range(0, 5)) rec(cx0 + k * (w + 3), y0 + 3, cx0 + k * (w + 3) + w, y1 - 3, d + 1);
       };
       (void)diamond; rec(0, 0, 60, 40, 0); if (S.empty()) { S = C; C.clear(); } emit(S, C); }
+  } else if (fam == "rects") {   // k random oriented rectangles (coincident edges, shared corners, cancelling pairs likely), split between subject and clip
+    int g = (int)argi(a, "grid", 5), kmin = (int)argi(a, "kmin", 3), kmax = (int)argi(a, "kmax", 6); bool subjonly = argi(a, "subjonly", 0) != 0;
+    for (long long i = 0; i < n; ++i) { S.clear(); C.clear(); int k = (int)r.range(kmin, kmax);
+      for (int j = 0; j < k; ++j) { int64_t x1 = r.range(0, g - 1), x2 = r.range(x1 + 1, g), y1 = r.range(0, g - 1), y2 = r.range(y1 + 1, g);
+        Path64 p = {{x1, y1}, {x2, y1}, {x2, y2}, {x1, y2}}; if (r.coin()) std::reverse(p.begin(), p.end());
+        if (r.range(0, 5) == 0 && !S.empty()) { p = S[r.range(0, (int64_t)S.size() - 1)]; if (r.coin()) std::reverse(p.begin(), p.end()); }   // a (possibly reversed) copy
+        ((subjonly || r.range(0, 2)) ? S : C).push_back(p); }
+      if (S.empty()) std::swap(S, C);
+      emit(S, C); }
   } else if (fam == "ringrect") {   // concentric square rings + rectangles whose horizontal edges are collinear with ring edges (horizontal joins merge nested rings)
     for (long long i = 0; i < n; ++i) { S.clear(); C.clear(); int k = (int)r.range(3, 6); int64_t c0 = 40, gap = 4;
       for (int j = 0; j < k; ++j) { int64_t rad = gap * (k - j) + 2 * (int64_t)r.range(0, 1) * 0; Path64 p = {{c0 - rad, c0 - rad}, {c0 + rad, c0 - rad}, {c0 + rad, c0 + rad}, {c0 - rad, c0 + rad}}; if (r.range(0, 3) == 0) std::reverse(p.begin(), p.end()); S.push_back(p); }
